@@ -10,6 +10,7 @@ import (
 
 	astits "github.com/asticode/go-astits"
 	"verif/mc"
+	"verif/ref"
 )
 
 func init() { register("C08", checkC08) }
@@ -174,6 +175,11 @@ func checkC08(c *mc.Ctx) {
 		"a plain non-seekable reader with auto-detection loses the two packets consumed by detection (documented); the expected output is that of the stream without them",
 		"bufio.Reader with the default 4096-byte buffer")
 	streams := append(StandardStreams(c.Seed), TinyPayloadStream(c.Seed), SyncLookalikeStream(c.Seed))
+	// the shortest streams: a single packet, two packets (explicit packet size only: a size cannot be
+	// detected from fewer than 193 bytes, and detection needs two packets to be lost on plain readers)
+	one := EncodePkts(Packetize(PSIUnit(0, 0, [][]byte{SecPAT(modelPAT(1, 0x1000), ref.SecHdr{CNI: true})}, nil), nil, new(uint8), true))
+	two := append(append([]byte{}, one...), EncodePkts(Packetize(PESUnit(0x100, 0xe0, pesPayload(81, 100, c.Seed), 1, false), nil, new(uint8), false))...)
+	streams = append(streams, &Stream{Name: "single-packet", Bytes: one}, &Stream{Name: "two-packets", Bytes: two})
 	var cfgs []c08Cfg
 	for _, kind := range []string{"bytes", "bufio", "plain", "seek", "seekoff"} {
 		for _, k := range []int{0, 1, 2, 3, 4, 16} {
@@ -190,7 +196,10 @@ func checkC08(c *mc.Ctx) {
 			continue
 		}
 		// expected for plain+auto: the stream without its first two packets
-		lossPk, lossDa, _ := c08Observe(c08Cfg{"bytes", false, 0}, st.Bytes[2*188:], 0, nil, nil)
+		var lossPk, lossDa []string
+		if len(st.Bytes) >= 3*188 {
+			lossPk, lossDa, _ = c08Observe(c08Cfg{"bytes", false, 0}, st.Bytes[2*188:], 0, nil, nil)
+		}
 		expect := func(cfg c08Cfg) ([]string, []string) {
 			if cfg.Auto && cfg.Kind == "plain" {
 				return lossPk, lossDa
@@ -220,6 +229,9 @@ func checkC08(c *mc.Ctx) {
 		}
 		var jobs []job
 		for _, cfg := range cfgs {
+			if cfg.Auto && len(st.Bytes) < 3*188 {
+				continue
+			}
 			if cfg.Kind == "bytes" {
 				jobs = append(jobs, job{cfg, 0})
 				continue
@@ -253,7 +265,7 @@ func checkC08(c *mc.Ctx) {
 			bound = 3
 		}
 		for _, cfg := range cfgs {
-			if cfg.Kind == "bytes" || (cfg.K != 0 && cfg.K != 4) {
+			if cfg.Kind == "bytes" || (cfg.K != 0 && cfg.K != 4) || (cfg.Auto && len(st.Bytes) < 3*188) {
 				continue
 			}
 			if cfg.K == 4 && !c.Thorough() && cfg.Kind != "plain" {
